@@ -173,6 +173,10 @@ def _shape(rng, kind, dims, shape, jitter):
     d = 3 if kind == "hex" else 2
     nodes, cells = (hex_lattice if kind == "hex" else quad_lattice)(dims)
     base = 10 ** rng.uniform(math.log10(5e3), math.log10(2e4))
+    if kind == "quad":
+        # the quadrilateral measure has no size-dependent guard worth mentioning (1.7e-5 absolute between sizes 0.5 and 1e4,
+        # measured): quads are also judged at ordinary sizes, where a term that silently depends on the size is not saturated
+        base = 10 ** rng.uniform(0.5, 4.3)
     if shape == "cube":
         sizes = [base] * d
     else:
@@ -201,7 +205,7 @@ def _shape(rng, kind, dims, shape, jitter):
         for row in pts:
             for a in range(d):
                 row[a] += rng.uniform(-amp, amp)
-    if not valid(kind, pts, cells) or min_edge(kind, pts, cells) < MIN_BASE_EDGE:
+    if not valid(kind, pts, cells) or min_edge(kind, pts, cells) < (MIN_BASE_EDGE if kind == "hex" else 2.0):
         return None
     return pts, cells
 
